@@ -158,6 +158,56 @@ class ShiftSpec(ProgSpec):
         return ProgSpec.final(self, S, hist) and any(it[3] in progs.SHIFT_SEPS for it in hist[1:])
 
 
+class GoogleBlockSpec(ProgSpec):
+    """the same programs written as the `Example:` block of a google-style docstring and collected with
+    parse_docstr_examples(style=google / auto): exactly one doctest comes out and it runs like the plain program
+    (a line of the block that merely looks like a section header - in a want, in a string - does not end the block)"""
+    title = 'programs inside a google Example: block, extracted and run'
+
+    def run_case(self, hist):
+        import io
+        import warnings
+        import contextlib
+        from xdoctest import core
+        frame = tuple(hist[0][1:])
+        items = [tuple(it) for it in hist[1:]]
+        b = progs.build((0, False), items)
+        doc = 'Summary line.\n\nArgs:\n    a (int): nothing\n\nExample:\n' + '\n'.join(('    ' + l) if l else '' for l in b['doc_lines']) + '\n'
+        case = {'docstring': doc}
+        nontrivial = len(b['stmts']) >= 2 or bool(b['wants'])
+        atoms = []
+        for style in ('google', 'auto'):
+            try:
+                with contextlib.redirect_stdout(io.StringIO()), warnings.catch_warnings():
+                    warnings.simplefilter('ignore')
+                    exs = list(core.parse_docstr_examples(doc, callname='f', style=style))
+            except Exception as ex:
+                atoms.append({'sig': 'google:extract-raises:' + type(ex).__name__, 'msg': '%s: %r' % (style, ex)})
+                continue
+            if len(exs) != 1:
+                atoms.append({'sig': 'google:example-count', 'msg': 'style=%s: %d doctests for one Example block' % (style, len(exs))})
+                continue
+            e = exs[0]
+            e.mode = 'native'
+            r = harness.run_doctest(None, doctest=e)
+            if r.raised is not None:
+                atoms.append({'sig': 'google:run-raised:' + type(r.raised).__name__, 'msg': '%s: %r' % (style, r.raised)})
+                continue
+            v = harness.verdict_of(r.summary)
+            exp_v = 'passed' if b['anycode'] else 'skipped'
+            ref_trace = b['ns']['TRACE']
+            if b['anycode'] and r.trace != ref_trace:
+                atoms.append({'sig': 'google:trace', 'msg': 'style=%s: executed %r, plain program executes %r (%s: %s)' % (
+                    style, r.trace, ref_trace, r.exc_type, str(r.exc)[:200])})
+            elif v != exp_v:
+                atoms.append({'sig': 'google:verdict:%s-expected-%s' % (v, exp_v), 'msg': '%s: %s %s' % (style, r.exc_type, str(r.exc)[:200])})
+            elif b['anycode'] and r.stdout not in stdout_variants(b['outs'], b['echo_ok']):
+                atoms.append({'sig': 'google:stdout', 'msg': 'style=%s: recorded %r' % (style, r.stdout)})
+        seen = set()
+        uniq = [a for a in atoms if not (a['sig'] in seen or seen.add(a['sig']))]
+        return {'atoms': uniq, 'outcome': 'ok' if not uniq else 'bad', 'case': case, 'nontrivial': nontrivial}
+
+
 # ----------------------------------------------------------------------------------------------
 _MODCACHE = {}
 
@@ -344,10 +394,12 @@ def specs(tier):
                 ProgSpec('prog-len4', 4, 3, std, min_items=4),
                 ShiftSpec('prog-shift', 3, 6, std),
                 ModuleBoundSpec('prog-module', 2, 99, std),
-                ModuleBoundSpec('prog-module-len3', 3, 3, std, min_items=3)]
+                ModuleBoundSpec('prog-module-len3', 3, 3, std, min_items=3),
+                GoogleBlockSpec('prog-google', 2, 99, std)]
     return [CaptureSpec(5),
             ProgSpec('prog-len2', 2, 99, std),
-            ProgSpec('prog-frames', 2, 4, [f for f in progs.FRAMES if f != (0, False)]),
-            ProgSpec('prog-len3', 3, 3, std, min_items=3),
-            ShiftSpec('prog-shift', 3, 5, std),
-            ModuleBoundSpec('prog-module', 2, 4, std)]
+            ProgSpec('prog-frames', 2, 3, [f for f in progs.FRAMES if f != (0, False)]),
+            ProgSpec('prog-len3', 3, 2, std, min_items=3),
+            ShiftSpec('prog-shift', 3, 4, std),
+            ModuleBoundSpec('prog-module', 2, 3, std),
+            GoogleBlockSpec('prog-google', 2, 3, std)]
